@@ -1,7 +1,7 @@
 use core::marker::PhantomData;
 
 use crate::{models::short_weierstrass::SWCurveConfig, CurveConfig};
-use ark_ff::batch_inversion;
+use ark_ff::{batch_inversion, Zero};
 use ark_poly::{univariate::DensePolynomial, DenseUVPolynomial, Polynomial};
 
 use crate::{
@@ -55,6 +55,11 @@ where
                 let y_den = DensePolynomial::from_coefficients_slice(self.y_map_denominator);
 
                 let mut v: [BaseField<Domain>; 2] = [x_den.evaluate(&x), y_den.evaluate(&x)];
+                // A vanishing denominator means the point lies in the kernel of the
+                // isogeny, whose image is the point at infinity (RFC 9380, 6.6.3).
+                if v[0].is_zero() || v[1].is_zero() {
+                    return Ok(Affine::identity());
+                }
                 batch_inversion(&mut v);
                 let img_x = x_num.evaluate(&x) * v[0];
                 let img_y = (y_num.evaluate(&x) * y) * v[1];
